@@ -102,7 +102,8 @@ Init == /\ phase = "pre"
 
 Log(a, args, exp) ==
   /\ last' = [a |-> a, args |-> args, exp |-> exp]
-  /\ hist' = Append(hist, [a |-> a, args |-> args, exp |-> exp])
+  /\ hist' = IF D = 0 THEN hist     \* D = 0: model checking / graph export, no history needed
+             ELSE Append(hist, [a |-> a, args |-> args, exp |-> exp])
 
 Reset(S) == /\ orig' = S /\ cur' = S
             /\ tch' = [p \in Ports |-> "u"]
@@ -200,6 +201,10 @@ ViewTruth(v, c) ==
 ObservedTruth ==
   last.a \in {"Barrier", "Status", "Features"} =>
     ViewTruth(last.exp.cur, cur) /\ ViewTruth(last.exp.orig, orig)
+
+\* the same as an action property: evaluated on EVERY transition, also those
+\* into states already seen (model checking uses VIEW viewE, which hides last)
+ObservedTruthA == [][ObservedTruth']_vars
 
 \* a notification changes the entry of its own number and nothing else,
 \* and never the originally reported ports
